@@ -160,8 +160,10 @@ HBC_CASES
 
 
 def api_mixed(vals=None, out=None):
-    res = mcprobe([("pref", "BrailleCode UEB"), ("mathml", "<math><mstack id='a'></mstack></math>"), ("braille", ""), "brpos", "nodeat 1", ("braille", "a")])
-    return any(r[0] == "PANIC" for r in res), {"script": "UEB, <mstack> (an element the braille rules answer with partly untranslated text); get_braille_position / get_navigation_node_from_braille_position / get_braille(id)", "results": res}
+    # a character Nemeth has no braille for (passed through by design, C07) inside the five-cell look-back window of the highlighted cell
+    expr = "<math><mi>a</mi><mo>+</mo><mi>b</mi><mo>+</mo><mi>c</mi><mo>+</mo><mn>\u0663</mn><mo>+</mo><mi id='x'>x</mi></math>"
+    res = mcprobe([("pref", "BrailleCode Nemeth"), ("mathml", expr), ("braille", ""), ("braille", "x"), ("setnav", "x 0"), "brpos", "nodeat 8"])
+    return any(r[0] in ("PANIC", "ABORT") for r in res), {"script": "Nemeth, a+b+c+(ARABIC-INDIC DIGIT THREE, no Nemeth cell: passed through)+x; get_braille(id of x) / get_braille_position / get_navigation_node_from_braille_position", "results": res[2:]}
 
 
 def positions_lemma(run):
